@@ -142,8 +142,10 @@ def run_refine(items, w=2, monitors=True, max_level=6000, max_alloc=256, timeout
             write_batch(d, 'Batch', 'Refine', ecases, w, defs=defs,
                         consts={'Monitors': 'TRUE' if monitors else 'FALSE', 'MaxLevel': max_level, 'MaxAlloc': max_alloc})
         r = tlc.run(d, 'Batch', timeout=timeout, workers=workers)
-        if (r.errors and not r.prints) or (not r.prints and not r.timed_out):
+        completed = 'Model checking completed. No error has been found' in r.out
+        if (r.errors and not r.prints) or (not r.prints and not r.timed_out and not completed):
             raise common.Machinery('TLC failed: %s\n%s' % (r.errors[:3], r.out[-2500:]))
+        # no verdict line at all although TLC completed: every case of the batch ran out of fuel (result None)
         by = {}
         for p in r.prints:
             if len(p) >= 12 and p[1] == 'R':
